@@ -35,9 +35,9 @@ def peak_harnesses():
                     d2 = dict(d); d2["CONCRETE_VALUES"] = 1
                     out.append(H("peak.%s.%s.ch2.fixed" % (tag, t), "C18/peak.c", link=["common"], stubs=["psf_log_printf", "psf_memset"], defines=d2,
                                  unwind=10, unwindset=["psf_fwrite.0:%d" % (3 * ch * 8 + 1), "psf_memset.0:65"] + ["main.%d:%d" % (i, 3 * ch * fw + 2) for i in range(12)],
-                                 checks="mem", solver="cadical", include_env=("log_stub", "memfile", "memset_model", "libm_model"), timeout=400,
-                                 # measured: same-type writers 6..10 s, other writers into double64 100..150 s, other writers into float32 no verdict in 200 s
-                                 tiers=(("quick", "thorough") if t == ft else ("thorough",) if tag == "double64" else ()),
+                                 checks="mem", solver="cadical", include_env=("log_stub", "memfile", "memset_model", "libm_model"), timeout=1200,
+                                 # measured: same-type writers 6..10 s, other writers into double64 100..150 s, other writers into float32 ~400 s
+                                 tiers=(("quick", "thorough") if t == ft else ("thorough",)),
                                  functions=[init, "%s_peak_update" % tag, "host_write_%s2%s" % (t[0], ft[0])],
                                  bounds="<= 3 frames, 2 channels, staging buffer 16 bytes, arbitrary prior peak state, split point symbolic; sample values fixed (magnitudes growing towards the end)"))
     return out
